@@ -1,9 +1,10 @@
 """C22 comptime tracing enforces ownership.
 
-R-C22.1  frozenlist overrides every in-place mutator of `list` with a body that must raise
-         GuppyComptimeError; `copy` hands out a plain list.
+R-C22.1  frozenlist overrides every in-place mutator of `list`; each body, interpreted with its helpers, raises
+         GuppyComptimeError (c22_unpack.py); `copy` hands out a plain list.
 R-C22.2  GuppyStructObject.__setattr__ stores a field only when not frozen (raises otherwise);
-         unpack_guppy_object threads `frozen` through every recursive call / container;
+         unpack_guppy_object, interpreted on a nested tuple/struct/array type with frozen False and True, yields frozenlists
+         and frozen struct objects at every level iff frozen (c22_unpack.py; syntactic threading only as fallback);
          trace_function freezes exactly the non-borrowed inputs.
 R-C22.3  GuppyObject._use_wire raises iff already used and not copyable, records the use
          otherwise; nobody else reads `_wire` or resets `_used`.
@@ -43,19 +44,22 @@ def run(ctx: Ctx) -> None:
     ctx.saw("classes", fl.qualname)
     ctx.check(fl.base_names == ["list"], "R-C22.1", f"{fl.qualname}#base", fl.where, {"bases": fl.base_names},
               "frozenlist must derive from list (and only list): the mutator table below is list's")
-    for m in LIST_MUTATORS:
-        f = fl.methods.get(m)
-        key = f"{fl.qualname}.{m}#must-raise"
-        if f is None:
-            ctx.violation("R-C22.1", key, fl.where, {"overridden": False},
-                          f"`{m}` is inherited from list: a value derived from an owned comptime argument can be mutated in place")
-            continue
-        body = body_without_docstring(f.node)
-        mr = must_raise(body)
-        classes = sorted({raised_class(r)[0] for r in ast.walk(f.node) if isinstance(r, ast.Raise)})
-        ctx.check(mr and classes == ["GuppyComptimeError"], "R-C22.1", key, f.where,
-                  {"must_raise": mr, "raises": classes},
-                  f"frozenlist.{m} does not reject the mutation with GuppyComptimeError on every path")
+    from . import c22_unpack
+    if not c22_unpack.mutators(ctx, fl, LIST_MUTATORS):
+        # fallback for bodies that could not be interpreted: every path of the body ends in a raise of GuppyComptimeError
+        for m in LIST_MUTATORS:
+            f = fl.methods.get(m)
+            key = f"{fl.qualname}.{m}#must-raise"
+            if f is None:
+                ctx.violation("R-C22.1", key, fl.where, {"overridden": False},
+                              f"`{m}` is inherited from list: a value derived from an owned comptime argument can be mutated in place")
+                continue
+            body = body_without_docstring(f.node)
+            mr = must_raise(body)
+            classes = sorted({raised_class(r)[0] for r in ast.walk(f.node) if isinstance(r, ast.Raise)})
+            ctx.check(mr and classes == ["GuppyComptimeError"], "R-C22.1", key, f.where,
+                      {"must_raise": mr, "raises": classes},
+                      f"frozenlist.{m} does not reject the mutation with GuppyComptimeError on every path")
     cp = fl.methods.get("copy")
     key = f"{fl.qualname}.copy#plain-list"
     if cp is None:
@@ -130,62 +134,64 @@ def run(ctx: Ctx) -> None:
                 return kw.value
         return c.args[pos] if len(c.args) > pos else None
 
-    n_rec = 0
-    for c in calls_in(up.node):
-        cn = dotted(c.func)
-        if cn == "unpack_guppy_object":
-            n_rec += 1
-            a = arg_at(c, fpos, "frozen")
-            ctx.check(a is not None and dotted(a) == "frozen", "R-C22.2", f"{up.qualname}#recursive-call[{n_rec}]",
-                      f"{up.module.rel}:{c.lineno}", {"frozen_arg": ast.unparse(a) if a else None},
-                      "nested values of an owned comptime argument are unpacked without the frozen flag and become mutable")
-        elif cn == "GuppyStructObject":
-            init = so.methods.get("__init__")
-            ipos = [x.arg for x in init.node.args.args].index("frozen") - 1 if init else 2
-            a = arg_at(c, ipos, "frozen")
-            ctx.check(a is not None and dotted(a) == "frozen", "R-C22.2", f"{up.qualname}#struct-object",
-                      f"{up.module.rel}:{c.lineno}", {"frozen_arg": ast.unparse(a) if a else None},
-                      "struct objects built from an owned comptime argument are not frozen")
-    ctx.floor("R-C22.2", "recursive unpack_guppy_object calls", n_rec, 3)
-    # list results: every returned list display/comprehension goes through `frozenlist(x) if frozen else x`
-    list_locals = set()
-    for n in walk_no_nested(up.node):
-        if isinstance(n, ast.Assign) and isinstance(n.value, (ast.ListComp, ast.List)) or (
-                isinstance(n, ast.Assign) and isinstance(n.value, ast.Call) and dotted(n.value.func) == "list"):
-            for t in n.targets:
-                if isinstance(t, ast.Name):
-                    list_locals.add(t.id)
-    n_list_ret = 0
-    for r in walk_no_nested(up.node):
-        if not isinstance(r, ast.Return) or r.value is None:
-            continue
-        v = r.value
-        def listy(x: ast.expr) -> bool:
-            return (isinstance(x, (ast.ListComp, ast.List)) or (isinstance(x, ast.Name) and x.id in list_locals)
-                    or (isinstance(x, ast.Call) and dotted(x.func) in ("frozenlist", "list"))
-                    or (isinstance(x, ast.IfExp) and (listy(x.body) or listy(x.orelse))))
-        is_list_expr = listy(v)
-        if not is_list_expr:
-            continue
-        n_list_ret += 1
-        ok = (isinstance(v, ast.IfExp) and dotted(v.test) == "frozen" and isinstance(v.body, ast.Call)
-              and dotted(v.body.func) == "frozenlist")
-        if not ok and isinstance(v, ast.IfExp) and isinstance(v.test, ast.UnaryOp) and dotted(v.test.operand) == "frozen":
-            ok = isinstance(v.orelse, ast.Call) and dotted(v.orelse.func) == "frozenlist"
-        if not ok:
-            gs = lexical_guards(up.node, r) or []
-            fz = booltab.suffix_atomizer({"frozen": "frozen"})
-            try:
-                always_frozen, _ = guards_imply(gs, fz, lambda env: env.get("frozen") is True)
-                never_frozen, _ = guards_imply(gs, fz, lambda env: env.get("frozen") is False)
-            except Exception:  # noqa: BLE001
-                always_frozen = never_frozen = False
-            is_fl = isinstance(v, ast.Call) and dotted(v.func) == "frozenlist"
-            ok = (always_frozen and is_fl) or (never_frozen and not is_fl)
-        ctx.check(ok, "R-C22.2", f"{up.qualname}#list-result[{n_list_ret}]", f"{up.module.rel}:{r.lineno}",
-                  {"returns": ast.unparse(v)[:100]},
-                  "arrays of an owned comptime argument are unpacked into a plain mutable list")
-    ctx.floor("R-C22.2", "list-valued returns in unpack_guppy_object", n_list_ret, 1)
+    if not c22_unpack.unpack(ctx):
+        # fallback (not interpretable): `frozen` is passed on syntactically at every recursive call / struct object / list result
+        n_rec = 0
+        for c in calls_in(up.node):
+            cn = dotted(c.func)
+            if cn == "unpack_guppy_object":
+                n_rec += 1
+                a = arg_at(c, fpos, "frozen")
+                ctx.check(a is not None and dotted(a) == "frozen", "R-C22.2", f"{up.qualname}#recursive-call[{n_rec}]",
+                          f"{up.module.rel}:{c.lineno}", {"frozen_arg": ast.unparse(a) if a else None},
+                          "nested values of an owned comptime argument are unpacked without the frozen flag and become mutable")
+            elif cn == "GuppyStructObject":
+                init = so.methods.get("__init__")
+                ipos = [x.arg for x in init.node.args.args].index("frozen") - 1 if init else 2
+                a = arg_at(c, ipos, "frozen")
+                ctx.check(a is not None and dotted(a) == "frozen", "R-C22.2", f"{up.qualname}#struct-object",
+                          f"{up.module.rel}:{c.lineno}", {"frozen_arg": ast.unparse(a) if a else None},
+                          "struct objects built from an owned comptime argument are not frozen")
+        ctx.floor("R-C22.2", "recursive unpack_guppy_object calls", n_rec, 3)
+        # list results: every returned list display/comprehension goes through `frozenlist(x) if frozen else x`
+        list_locals = set()
+        for n in walk_no_nested(up.node):
+            if isinstance(n, ast.Assign) and isinstance(n.value, (ast.ListComp, ast.List)) or (
+                    isinstance(n, ast.Assign) and isinstance(n.value, ast.Call) and dotted(n.value.func) == "list"):
+                for t in n.targets:
+                    if isinstance(t, ast.Name):
+                        list_locals.add(t.id)
+        n_list_ret = 0
+        for r in walk_no_nested(up.node):
+            if not isinstance(r, ast.Return) or r.value is None:
+                continue
+            v = r.value
+            def listy(x: ast.expr) -> bool:
+                return (isinstance(x, (ast.ListComp, ast.List)) or (isinstance(x, ast.Name) and x.id in list_locals)
+                        or (isinstance(x, ast.Call) and dotted(x.func) in ("frozenlist", "list"))
+                        or (isinstance(x, ast.IfExp) and (listy(x.body) or listy(x.orelse))))
+            is_list_expr = listy(v)
+            if not is_list_expr:
+                continue
+            n_list_ret += 1
+            ok = (isinstance(v, ast.IfExp) and dotted(v.test) == "frozen" and isinstance(v.body, ast.Call)
+                  and dotted(v.body.func) == "frozenlist")
+            if not ok and isinstance(v, ast.IfExp) and isinstance(v.test, ast.UnaryOp) and dotted(v.test.operand) == "frozen":
+                ok = isinstance(v.orelse, ast.Call) and dotted(v.orelse.func) == "frozenlist"
+            if not ok:
+                gs = lexical_guards(up.node, r) or []
+                fz = booltab.suffix_atomizer({"frozen": "frozen"})
+                try:
+                    always_frozen, _ = guards_imply(gs, fz, lambda env: env.get("frozen") is True)
+                    never_frozen, _ = guards_imply(gs, fz, lambda env: env.get("frozen") is False)
+                except Exception:  # noqa: BLE001
+                    always_frozen = never_frozen = False
+                is_fl = isinstance(v, ast.Call) and dotted(v.func) == "frozenlist"
+                ok = (always_frozen and is_fl) or (never_frozen and not is_fl)
+            ctx.check(ok, "R-C22.2", f"{up.qualname}#list-result[{n_list_ret}]", f"{up.module.rel}:{r.lineno}",
+                      {"returns": ast.unparse(v)[:100]},
+                      "arrays of an owned comptime argument are unpacked into a plain mutable list")
+        ctx.floor("R-C22.2", "list-valued returns in unpack_guppy_object", n_list_ret, 1)
     # trace_function freezes exactly the non-borrowed inputs
     tf = idx.find_func("trace_function", "guppylang_internals.tracing.function")
     ctx.saw("functions", tf.qualname)
